@@ -147,6 +147,22 @@ def run(tier, seed):
                           f"pattern {r['pname']}: same deterministic seed, different Python random state -> different candidates",
                           {"pname": r["pname"], "seed": r["seed"], "opts": r["opts"], "first_difference_at_candidate": k,
                            "initial_a": r["initial"], "initial_b": r2.get("initial")})
+    # a schedule of seeds in ONE process: re-seeding with a seed used before (0 included) must replay that run, whatever
+    # was drawn in between
+    for pname in ("A", "G", "H2"):
+        opts = {"p_pre": 1, "p_sat": 0.6, "p_uniq": 0.05, "pretest": False, "penalty": True, "max_steps": 6,
+                "solve_initial": False, "temp": 5.0, "explicit_neighbor": False}
+        seen = {}
+        for k, sd in enumerate([0, 7, 0, 12345, 0, 7, 12345]):
+            r = GR.run_generate((k, pname, sd, opts))
+            rep += 1
+            chk.note_case(f"schedule/{pname}/{k}/{sd}", True)
+            key = (r["status"], json.dumps(r.get("candidates")), json.dumps(r["events"][-1] if r.get("events") else None))
+            if sd in seen and seen[sd] != key:
+                chk.violation({"part": "reproducibility", "what": "re-seeding-does-not-replay", "seed_zero": sd == 0},
+                              f"pattern {pname}: use_deterministic_prng(True, seed={sd}) a second time in the same process gives a different run",
+                              {"pname": pname, "seed": sd, "position_in_schedule": k, "schedule": [0, 7, 0, 12345, 0, 7, 12345]})
+            seen.setdefault(sd, key)
     zjobs = []
     for s in range(3 if tier == "quick" else 12):
         zjobs += [(seed * 10 + s, 1, 1), (seed * 10 + s, 424242, 977)]
